@@ -150,6 +150,14 @@ Definition r_state (r : run) : send_state :=
 Definition r_completed (r : run) : bool := match r_caller r with Done _ _ => true | _ => false end.
 Definition r_reported (r : run) : option N := match r_caller r with Done _ s => Some s | _ => None end.
 
+(* The connection a caller holds again when it gives a message up at any point of a run: by dropping
+   the context (Drop: nothing happens at zero bytes or after completion, a panic - which unwinds and
+   leaves the connection usable - after a partial write), by force_finish (mem::forget), or by keeping
+   only the progress. None of write_once / write / Drop / force_finish touches header_buf or
+   serial_counter. *)
+Definition r_conn (r : run) : send_conn :=
+  match r_caller r with Active x => cx_conn x | Suspended c _ _ => c | Done x _ => cx_conn x end.
+
 (* ---------------------------------------------------------------- send_message_write_all *)
 
 Section WriteAll.
